@@ -21,8 +21,9 @@ RULES = {
     'R5': 'qb_map_foreach frees its iterator on every path; iter_create starts unparked or referenced',
     'R6': 'iter_create stores no unreferenced node pointer in the iterator: every node-pointer field is NULL, the map header (never freed), or referenced before the function returns',
     'R7': 'a node that iterators may be parked on stays linked while referenced: where the advance follows the parked node\'s own links (hashtable), the node is unlinked only at its last dereference (in the destroy function reached with refcount 0) or at map teardown',
+    'R12': 'the map holds its own reference on every entry it contains, whoever else references the node: in trie_put the reference taken for a key that had no value is taken under no condition on the node\'s reference count (an iterator that pins a removed node does not stand in for the map - when it lets go the live entry would be destroyed)',
 }
-FLOORS = {'R1': 9, 'R2': 3, 'R3': 2, 'R4': 6, 'R5': 2, 'R6': 4, 'R7': 2, 'R8': 9, 'R9': 1, 'R10': 3, 'R11': 6}
+FLOORS = {'R12': 1, 'R1': 9, 'R2': 3, 'R3': 2, 'R4': 6, 'R5': 2, 'R6': 4, 'R7': 2, 'R8': 9, 'R9': 1, 'R10': 3, 'R11': 6}
 
 IT = {
     'hashtable': dict(next='hashtable_iter_next', free='hashtable_iter_free', deref='hashtable_node_deref', node='hash_node',
@@ -72,6 +73,7 @@ def run(ctx):
     for r in sub.results:
         r['rule'] = 'R11'
         ctx.results.append(r)
+    r12(ctx)
 
 
 def r1(ctx, name, m):
@@ -566,3 +568,17 @@ def r10(ctx):
                   'the ending path of %s leaves the iterator in a state %s does not produce' % (f.name, fc.name),
                   'the ending path of %s writes only what %s writes (%s): an iterator whose last key sat at the starting position is back where it began and the next call starts the iteration over instead of returning NULL again'
                   % (f.name, fc.name, ', '.join('%s=%s' % kv for kv in sorted((bad[0][1] if bad else {}).items())) or 'nothing'))
+
+
+def r12(ctx):
+    f = ctx.prog.fn('trie_put')
+    refs = list(f.calls('trie_node_ref'))
+    if not refs:
+        ctx.viol('R12', 'trie_put:map-reference-unconditional', f, 'trie_put takes no reference for the entry it inserts')
+        return
+    for ev in refs:
+        on_count = [repr(at) for (at, _e) in f.guards(ev) if any(n.get('k') == 'mem' and n.get('f') == 'refcount' for side in (at.l, at.r) if isinstance(side, dict) for n in walk(side))]
+        ctx.check('R12', 'trie_put:map-reference-unconditional', not on_count, ev,
+                  'the map\'s reference on a newly valued node does not depend on who else references it',
+                  'the map takes its reference only if %s: a key that is removed and put again while an iterator sits on its node is held by the iterator\'s reference alone, '
+                  'and qb_map_iter_free destroys the live entry (get returns NULL, the count says 1)' % ' and '.join(on_count))
